@@ -175,21 +175,28 @@ pattern and cancellation instant. -/
 section component
 open XmppModel.Component
 
-/-- **a component session is established only by a clean, acknowledged handshake**: success
-implies that no read or write failed, the context is not done, and the peer's input began with
-(an optional processing instruction and) a stream header carrying a stream id, followed by
-`<handshake/>` -/
+/-- **a component session is established only by a clean, completely acknowledged handshake**:
+success implies that no read or write failed, the context is not done, and what was consumed of
+the peer's input contains a stream header carrying a stream id and **ends with the end of the
+acknowledgement** — `<handshake/>` in one piece, or the end tag `</handshake>` that closes the
+start tag read before (a cut or failure between the two never yields a session) -/
 theorem C04_component_success {O : Component.Oracle} {script : List Item} {c : Component.Conf}
     (h : Component.Reach O script c) (hd : c.pc = .done) :
     (∀ e ∈ c.tr, e.faulty = false) ∧ O.cancel c.tr = false ∧
-    ∃ rest, script = [.hdr true, .ack] ++ rest ∨ script = [.pi, .hdr true, .ack] ++ rest := by
+    ∃ l, script = l ++ c.script ∧ Item.hdr true ∈ l ∧ EndsAck l := by
   have hi := Component.inv_reach h
   refine ⟨hi.clean (by rw [hd]; rfl), hi.notCancelled hd, ?_⟩
   obtain ⟨l, hl, hs⟩ := hi.consumed
   rw [hd] at hs
-  rcases hs with hs | hs
-  · exact ⟨c.script, Or.inl (by rw [hl, hs])⟩
-  · exact ⟨c.script, Or.inr (by rw [hl, hs])⟩
+  exact ⟨l, hl, hs.1, hs.2⟩
+
+/-- the start tag of the acknowledgement alone does not establish the session: with the input
+`[hdr, <handshake>]` the run ends in a failure (end of input inside the element) -/
+example : (Component.run ⟨fun _ => false, fun _ => false, fun _ => false, true, true⟩ 10
+    (Component.init [.hdr true, .ackOpen])).pc = .fail .io := by decide
+
+example : (Component.run ⟨fun _ => false, fun _ => false, fun _ => false, true, true⟩ 10
+    (Component.init [.hdr true, .ackOpen, .text, .ackClose])).pc = .done := by decide
 
 /-- **fail closed**: once a read or write has failed the handshake has failed (no `Ready`), and
 the failed operation is the last event -/
